@@ -23,7 +23,7 @@ GUARD = ['numqi.sim.clifford']  # argument-immutability oracle (mc.seams.Immutab
 LEVEL = 'model_checking'
 RULE = ('state = event history on a real CliffordCircuit (append g on q / query / apply / export); stateless enumeration of all '
         'histories to the depth bound plus BFS closure of the Clifford group mod phase keyed by the reference unitary; '
-        'transition = one implementation call compared with dense conjugation U^dagger P U for all phased Paulis; '
+        'transition = one implementation call compared with dense conjugation U^dagger P U for all phased Paulis, after which the returned arrays are overwritten in place (the caller owns them); '
         'non-trivial = distinct reference group elements / action tables that are not the identity')
 ASSUMPTIONS = [
     'dense numpy conjugation with kron-built Pauli matrices is the reference semantics',
@@ -105,6 +105,11 @@ def check_query(numqi, out, circ, gates, kind, hist, site, which=None):
         if not np.array_equal((S.astype(int).T @ L @ S.astype(int)) % 2, L) and not np.array_equal((S.astype(int) @ L @ S.astype(int).T) % 2, L):
             out.violation('%s/to_symplectic_form/not_symplectic' % site, 'returned S is not symplectic', history=hist)
         got = impl_action(numqi, r.copy(), S.copy(), n, which=which)
+        # the caller owns what a query returns: overwrite it in place, so that every later query of the history shows
+        # whether the object handed out its own cached tableau
+        for a in (r, S):
+            if a.flags.writeable:
+                a[...] = 1
         bad = [i for i in got if got[i] != table[i]]
         if bad:
             f2 = ref.pauli_table(n)[0]
@@ -118,6 +123,8 @@ def check_query(numqi, out, circ, gates, kind, hist, site, which=None):
             v = circ.apply_pauli_F2(f2[i].copy())
             if v.shape != (2 * n + 2,) or int(ref.f2_index(v)) != table[i]:
                 bad.append(i)
+            if v.flags.writeable:
+                v[...] = 1
         if bad:
             out.violation('%s/apply_pauli_F2/stale_or_wrong' % site,
                           'apply_pauli_F2 after history %s differs from U^dagger P U for %d Paulis (first %s)' % (hist, len(bad), f2[bad[0]].tolist()),
